@@ -61,6 +61,14 @@ def gen_case(seed, tier, index=0):
         {"path": "src/ro.py", "content": "x = 1\n", "mode": 0o444},
     ]
     files = [f for f in files if rng.chance(0.8) or f["path"] in ("src/a.py", "src/b.c", "LICENSES/MIT.txt")]
+    if rng.chance(0.4):
+        # two Meson subprojects next to each other: both are excluded unless --include-meson-subprojects is given
+        files.append({"path": "subprojects/liba/a.c", "content": "int a;\n"})
+        files.append({"path": "subprojects/libb/b.c", "content": "int b;\n"})
+        files.append({"path": "subprojects/libc/c.py", "content": "c = 1\n"})
+    if rng.chance(0.5):
+        files.append({"path": "LICENSES/LicenseRef-Custom.txt", "content": "hand-edited custom licence - must never change\n"})
+    files.append({"path": "srclic/LicenseRef-Custom.txt", "content": "custom licence text from the source directory\n"})
     # names that merely START with the name of a directory that gets annotated recursively
     for extra in ("src2/two.py", "src-legacy/old.py", "srcgen.py", "docs-old/x.html", "src/deeper/y.py", "docs.py"):
         if rng.chance(0.45):
@@ -87,7 +95,10 @@ def gen_case(seed, tier, index=0):
              "home": [{"path": ".gitconfig-decoy", "content": "[user]\n"}, {"path": ".config/reuse/x", "content": "x\n"}]}
     git = rng.chance(0.6)
     if git:
-        files.append({"path": ".gitignore", "content": "ignored_dir/\n*.log\nsecret.cfg\n"})
+        files.append({"path": ".gitignore", "content": "ignored_dir/\n*.log\nsecret.cfg\nbuild/\ndist/\n.tox/\n.venv/\n"})
+        for extra in ("build/b.py", "dist/d.py", ".tox/t.py", ".venv/v.py"):
+            if rng.chance(0.7):
+                files.append({"path": extra, "content": "g = 1\n"})
         files.append({"path": "ignored_dir/x.py", "content": "z = 3\n"})
         files.append({"path": "src/debug.log", "content": "log\n"})
         files.append({"path": "src/deep/trace.log", "content": "trace\n"})
@@ -156,7 +167,10 @@ def gen_case(seed, tier, index=0):
             ids = rng.sample(G.VALID + ["LicenseRef-Custom", "Foo-1.0"], rng.randint(1, 2))
             if rng.chance(0.5) and "MIT" not in ids:
                 ids[0] = "MIT"  # a target that usually exists already
-            argv = rng.pick([["download"] + ids, ["download", "--all"], ["download", "-o", "docs/downloaded.txt", ids[0]]])
+            argv = rng.pick([["download"] + ids, ["download", "--all"], ["download", "-o", "docs/downloaded.txt", ids[0]],
+                             ["download", "--source", "srclic", "LicenseRef-Custom"],
+                             ["download", "--source", "srclic/LicenseRef-Custom.txt", "LicenseRef-Custom+"],
+                             ["download", "--source", "srclic", "-o", "src/a.py", "LicenseRef-Custom"]])
             st = mp(argv)
             st["net"] = {i: rng.pick([{"kind": "ok", "text": f"text {i}\n"}, {"kind": "ok", "text": f"text {i}\n"}, {"kind": "http", "code": 404}, {"kind": "urlerror"}]) for i in G.VALID}
             steps.append(st)
@@ -170,7 +184,7 @@ def gen_case(seed, tier, index=0):
 
 
 # ---- model ---------------------------------------------------------------------------------------
-def _covered_model(tree, links, ignored, under):
+def _covered_model(tree, links, ignored, under, under_flags=()):
     """Files that recursion below *under* may reach according to the statement."""
     out = set()
     for p, size in tree.items():
@@ -179,7 +193,7 @@ def _covered_model(tree, links, ignored, under):
         parts = p.split("/")
         if any(d in EXCL_DIR for d in parts[:-1]):
             continue
-        if any(parts[i] == "subprojects" for i in range(len(parts) - 2)):
+        if any(parts[i] == "subprojects" for i in range(len(parts) - 2)) and "--include-meson-subprojects" not in under_flags:
             continue
         if any(rx.match(parts[-1]) for rx in EXCL_FILE):
             continue
